@@ -236,6 +236,12 @@ impl FileUploadSession {
         debug_assert_le!(xorb.num_bytes(), *MAX_XORB_BYTES);
         debug_assert_le!(xorb.data.len(), *MAX_XORB_CHUNKS);
 
+        // Record the chunks of this xorb in the session shard, exactly as is done for xorbs cut
+        // in the middle of a file, so that later sessions can deduplicate against them.
+        if xorb.num_bytes() > 0 {
+            self.shard_interface.add_cas_block(xorb.cas_info.clone()).await?;
+        }
+
         self.register_new_xorb_for_upload(xorb).await?;
 
         for fi in new_files {
